@@ -149,6 +149,9 @@ pub fn generate_c10(em: &mut Emitter, seed: u64, thorough: bool) {
                     Err(e) => em.oracle_failures.push(format!("C10 source locations do not reload: {:?} :: `{}`", e, &src[..src.len().min(300)])),
                 }
                 // recompilation equality
+                if src.starts_with("# nocompile") {
+                    continue;
+                }
                 let asm = || Assembler::default().with_library(&stdlib::StdLibrary::default()).unwrap();
                 let r1 = catch_unwind(AssertUnwindSafe(|| asm().compile_ast(&ast)));
                 let r2 = catch_unwind(AssertUnwindSafe(|| asm().compile_ast(&back)));
@@ -169,6 +172,57 @@ pub fn generate_c10(em: &mut Emitter, seed: u64, thorough: bool) {
         let src = format!("proc.lp.2 push.1 end begin {} end", i);
         variants_seen.insert(i.split('.').next().unwrap().to_string());
         check_prog(em, &src, &mut ok_rt, &mut parse_err);
+    }
+    // size boundaries of every length / count field of the byte format (u8 vs u16 boundaries):
+    // body lengths, number of procedures, locals, docs length, label length, nesting depth,
+    // repeat counts, word-sized pushes
+    {
+        let mut sized: Vec<String> = Vec::new();
+        for n in [1usize, 2, 254, 255, 256, 257, 300, 1000] {
+            sized.push(format!("begin {} end", vec!["add"; n].join(" ")));
+            sized.push(format!("proc.lp.2 {} end begin exec.lp end", vec!["swap"; n].join(" ")));
+            sized.push(format!("begin push.1 if.true {} else {} end end", vec!["neg"; n].join(" "), vec!["drop"; (n % 7) + 1].join(" ")));
+            sized.push(format!("begin push.0 while.true {} push.0 end end", vec!["incr"; n].join(" ")));
+            sized.push(format!("begin repeat.{} swap end end", n));
+        }
+        if thorough {
+            sized.push(format!("begin {} end", vec!["add"; 65535].join(" ")));
+        }
+        for n in [1usize, 2, 255, 256, 257, 400] {
+            let procs: String = (0..n).map(|i| format!("proc.p{} push.{} end\n", i, i)).collect();
+            sized.push(format!("{}begin exec.p0 exec.p{} end", procs, n - 1));
+        }
+        for locals in [0usize, 1, 255, 256, 257, 65535] {
+            sized.push(format!("proc.lp.{} push.1 end begin exec.lp end", locals));
+        }
+        for n in [1usize, 254, 255, 256, 257, 1000, 65535] {
+            sized.push(format!("#! {}\nproc.lp push.1 end begin exec.lp end", "d".repeat(n.saturating_sub(0))));
+        }
+        for n in [1usize, 2, 100, 254, 255] {
+            let name = "q".repeat(n);
+            sized.push(format!("proc.{name} push.1 end begin exec.{name} call.{name} procref.{name} end", name = name));
+        }
+        for depth in [1usize, 5, 20, 60] {
+            let mut src = String::from(if depth > 10 { "# nocompile\nbegin " } else { "begin " });
+            for d in 0..depth {
+                src.push_str(if d % 3 == 0 { "push.1 if.true " } else if d % 3 == 1 { "repeat.2 " } else { "push.0 while.true " });
+            }
+            src.push_str("push.3 drop ");
+            for d in (0..depth).rev() {
+                src.push_str(if d % 3 == 2 { "push.0 end " } else { "end " });
+            }
+            src.push_str("end");
+            sized.push(src);
+        }
+        for r in [1u64, 255, 256, 65535, 65536, 4294967295] {
+            // large counts are only parsed and round-tripped, never compiled (the assembler unrolls)
+            sized.push(format!("{}begin repeat.{} push.1 drop end end", if r > 300 { "# nocompile\n" } else { "" }, r));
+        }
+        em.stat("size_boundary_sources", sized.len());
+        for src in sized.iter() {
+            // compile only the small ones (repeat.4294967295 would unroll forever)
+            check_prog(em, src, &mut ok_rt, &mut parse_err);
+        }
     }
     let n = if thorough { 3000 } else { 250 };
     for _ in 0..n {
